@@ -351,7 +351,8 @@ theorem idcStarO_order_independent {ordf : List World → List World} {dordf : L
               | none => rfl
               | some val =>
                 simp only
-                cases hx : exchangeStep cf (newOutcomesAndConditions (orderDistrict false) nev O C).fst c val with
+                cases hx : exchangeStep cf (newOutcomesAndConditions (orderDistrict false) nev O C).fst c val
+                    ((newOutcomesAndConditions (orderDistrict false) nev O C).snd.filter (fun p => p.1 ≠ c)) with
                 | error err => rfl
                 | ok on =>
                  cases on with
